@@ -44,7 +44,8 @@ def main():
     results = []
     try:
         subprocess.check_call(["rsync", "-a", "--exclude", "target", "--exclude", ".git", REPO + "/", scratch + "/"])
-        env = dict(os.environ, NOODLES_REPO=scratch, VERIF_EVIDENCE_DIR=evdir)
+        env = dict(os.environ, NOODLES_REPO=scratch, VERIF_EVIDENCE_DIR=evdir,
+                   VERIF_CACHE=os.path.join(VERIF, ".cache-selftest"))
         for kind in ("mutants", "equivalent"):
             d = os.path.join(HERE, kind)
             if not os.path.isdir(d):
